@@ -50,6 +50,7 @@ GhostInit(S) ==
    acc |-> EmptyFn,      \* key hash -> accesses delivered to the sketch in the current ageing window (system-level C14)
    accTotal |-> 0,       \* recorded accesses in the current window (TinyLFU::total_increments)
    evw |-> EmptyFn,      \* evicting actor -> id of the store entry its key had when it removed the key id from key_weights
+   mine |-> EmptyFn,     \* actor -> the expiry the entry had right after that actor's own last store write (its in-place upsert, the worker's put)
    loose |-> FALSE,      \* (lock-grain traces) a span with several effects was seen: only the state-level judges are evaluated from here on
    desync |-> {},        \* actors whose model-inferred locals cannot be trusted until they start their next command / operation
    smp |-> {},           \* ids in the sample the code logged last (entries kept from it carry the estimate they were sampled with)
@@ -258,17 +259,27 @@ GhostNext(G, S, a, site, inp, S2, o) ==
                   [G9 EXCEPT !.credit = Restrict(@, {id \in DOMAIN @ : id \in DOMAIN S2.kw
                                                       \/ (IF rel # {} THEN id \notin rel ELSE id # L.vic.id /\ S2.used = S.used)})]
              ELSE IF site = "C_ShutClearPolicy" THEN [G9 EXCEPT !.credit = EmptyFn] ELSE G9
+      \* what the entry looked like right after the actor's own store write: an index update that does not match the entry is only
+      \* explained by the recorded races D13 / D14 if ANOTHER write changed the entry since
+      G10m == IF site = "C_PouUpdate" /\ IsCaller(a) /\ Present(S2, o.op.k)
+              THEN [G10 EXCEPT !.mine = With(@, a, [k |-> o.op.k, exp |-> S2.store[o.op.k].exp])]
+              ELSE IF site = "W_StorePut" /\ a = "worker" /\ Present(S2, L.cmd.key)
+              THEN [G10 EXCEPT !.mine = With(@, a, [k |-> L.cmd.key, exp |-> S2.store[L.cmd.key].exp])]
+              ELSE G10
+      Interfered(k) == LET m == Get(G.mine, a, [k |-> -1, exp |-> NoExp]) IN m.k # k \/ ~Present(S, k) \/ S.store[k].exp # m.exp
       \* D13: the worker registers an expiry in the index that the entry no longer has
       \* D13 / D14: an index update (the worker's after its store write, or a caller's after its in-place update) that no longer
       \* matches the entry: another upsert of the key ran in between
       G11 == IF site = "T_Put" /\ a = "worker" /\ (~Present(S, L.cmd.key) \/ S.store[L.cmd.key].id # L.id \/ S.store[L.cmd.key].exp # L.exp)
-             THEN [G10 EXCEPT !.stale = With(@, L.id, "D13")]
+                /\ Interfered(L.cmd.key)
+             THEN [G10m EXCEPT !.stale = With(@, L.id, "D13")]
              ELSE IF IsCaller(a) /\ site \in {"T_Put", "T_UpdInsert", "T_Del", "T_UpdRemove"} /\ Present(S, L.op.k) /\ S.store[L.op.k].id = L.id
                      /\ LET written == CASE site = "T_Put" -> L.exp [] site = "T_UpdInsert" -> L.newexp [] OTHER -> NoExp
-                         IN (site \in {"T_Put", "T_UpdInsert"} /\ S.store[L.op.k].exp # written)
-                            \/ (site = "T_Del" /\ S.store[L.op.k].exp # NoExp)
-                            \/ (site = "T_UpdRemove" /\ S.store[L.op.k].exp # L.newexp)
-             THEN [G10 EXCEPT !.stale = With(@, L.id, "D14")] ELSE G10
+                         IN ((site \in {"T_Put", "T_UpdInsert"} /\ S.store[L.op.k].exp # written)
+                             \/ (site = "T_Del" /\ S.store[L.op.k].exp # NoExp)
+                             \/ (site = "T_UpdRemove" /\ S.store[L.op.k].exp # L.newexp))
+                            /\ Interfered(L.op.k)
+             THEN [G10m EXCEPT !.stale = With(@, L.id, "D14")] ELSE G10m
       \* the facts at the instant of a key lookup (the read itself is atomic)
       G12 == IF site = "C_Get" /\ IsCaller(a) /\ a \in DOMAIN G11.obs /\ Len(G11.obs[a]) < Len(ReadKeySeq(o.op))
              THEN LET k == ReadKeySeq(o.op)[Len(G11.obs[a]) + 1]   \* (the position comes from the observed lookups, not from the model's locals)
@@ -486,7 +497,13 @@ RejExistsVerdict(S, G, k) ==
        THEN \* a delete in flight is not one of the states the statement lists; a mark that outlives every delete is
             IF DeleteInFlight(G, k) THEN <<>>
             ELSE <<V("C07", "violation", "", "put rejected with KeyAlreadyExists for a key that reads as absent: its entry is marked deleted although no delete of it is pending")>>
-       ELSE <<V("C07", "known", "D4", "put of a key past its time to live (not swept yet) rejected with KeyAlreadyExists")>>
+       ELSE IF e.exp # NoExp /\ ((e.id \in DOMAIN S.ttl[ShardOf(S, e.exp)] /\ S.ttl[ShardOf(S, e.exp)][e.id] = e.exp)
+                              \* (or about to be: the write that gave it this expiry has not reached its index update yet)
+                              \/ UpsertInFlightOn(S, e.id) \/ (S.pc["worker"] = "T_Put" /\ S.lc["worker"].id = e.id))
+       THEN <<V("C07", "known", "D4", "put of a key past its time to live (not swept yet) rejected with KeyAlreadyExists")>>
+       ELSE IF k \in DOMAIN G.taintK \/ e.id \in DOMAIN G.stale
+       THEN <<V("C07", "known", IF e.id \in DOMAIN G.stale THEN G.stale[e.id] ELSE G.taintK[k], "put rejected for an expired entry that a recorded store/index race left outside the expiry index")>>
+       ELSE <<V("C07", "violation", "", "put rejected with KeyAlreadyExists for a key that reads as absent and is not registered for any sweep: it is refused for ever")>>
 
 J_C07(S, a, site, inp, S2, o, G, G2) ==
   LET L == S.lc[a] IN
